@@ -572,7 +572,11 @@ def mon_C07(case):
                     elif has(s["given"], "O") and not has(ps["given"], "O") and not has(amode, "O"):
                         out.append((i, f"C07 ownership of {t} granted to {u} by {who} who is not the owner"))
                 if s["want"] != ps["want"] and not s["deleted"] and who != u:
-                    if not (ps["want"].replace("O", "") == s["want"] and has(row["subs"].get(who, {}).get("want", "N"), "O")):
+                    # the previous owner's O is cleared when a transfer is accepted; the value written is the cached one, which may
+                    # differ from the stored one after a divergence already reported under C08
+                    cw = pre.cache.get(t, {}).get("users", {}).get(u, {}).get("want")
+                    stripped = s["want"] in (ps["want"].replace("O", ""), (cw or "").replace("O", "") or None)
+                    if not (stripped and has(row["subs"].get(who, {}).get("want", "N"), "O")):
                         out.append((i, f"C07 requested mode of {u} on {t} changed from {ps['want']} to {s['want']} by {who}"))
         for t, c in ln.cache.items():
             pc = pre.cache.get(t)
@@ -720,10 +724,10 @@ def mon_C09(case):
                     pp = pre.cache[t]["users"][u]
                     if p["r"] < pp["r"] or p["v"] < pp["v"]:
                         out.append((i, f"C09 in memory marks of {u} on {t} moved back: read {pp['r']}->{p['r']} recv {pp['v']}->{p['v']}"))
-        for t, row in ln.store.items():
+        for t, row, kind in [(t, row, k) for t, row in ln.store.items() for k in ("subs", "csubs")]:
             prow = pre.store.get(t) if pre else None
-            for u, s in row["subs"].items():
-                ps = prow["subs"].get(u) if prow else None
+            for u, s in row.get(kind, {}).items():
+                ps = prow.get(kind, {}).get(u) if prow else None
                 changed = ps is None or (ps["r"], ps["v"]) != (s["r"], s["v"])
                 if changed and not s["deleted"] and not (0 <= s["r"] <= s["v"] <= row["seq"]):
                     if (w[0] == "note" and len(w) > 3 and w[3] == "read" and ln.calls == ["SubsUpdate"] and 0 <= s["v"] < s["r"] <= row["seq"]
@@ -963,7 +967,15 @@ def mon_C04(case):
                 out.append((i, f"C04 malformed range list `{w[3]}` accepted"))
                 continue
             hard = kv.get("hard") == "1" and has(m, "D")
-            newrows = [d for d in post["dellog"] if d["id"] == n]
+            # the rows this request wrote: a row with the same number may be there already, left by an earlier request whose
+            # second store call failed (the partial-write finding of C08)
+            before = list(row["dellog"])
+            newrows = []
+            for d in post["dellog"]:
+                if d in before:
+                    before.remove(d)
+                elif d["id"] == n:
+                    newrows.append(d)
             covered = set()
             for d in newrows:
                 covered.update(range(d["lo"], d["hi"]))
